@@ -182,7 +182,8 @@ class Contract:
     def __init__(self, func, requires=(), ensures=(), loops=None, float_mode="R", bind=None,
                  ghost=None, lemmas=(), modifies=None, defs=(), name=None, checks=("bounds", "overflow", "narrow", "divzero", "frame"),
                  assume_types=True, note="", nan_aware=False, asserts=None, py_mode=False, inputs=None,
-                 call_facts=None, count_calls=(), rtc_prefs=(), rtc_scope=0, lists=(), vectors=False):
+                 call_facts=None, count_calls=(), rtc_prefs=(), rtc_scope=0, lists=(), vectors=False, lists3=()):
+        self.lists3 = tuple(lists3)   # parameters that are lists of lists of int lists (read-only model)
         self.vectors = vectors      # py_mode: 1-d NumPy vector semantics of pvc/npvec.py
         self.timeout_ms = 3000 if vectors else None   # formula contracts: syntactic proofs take ms; go to the finite scope early
         self.lists = tuple(lists)   # parameters that are Python lists of int lists (modelled by multiplicity tables)
@@ -911,6 +912,35 @@ class Exec:
                 self.oblige("bounds", f"{src_of(n)}: list index within [0, len)",
                             z3.And(j >= 0, j < self.heap[(base.t.id, "len")]), n)
             return Val("ilist", (base.t, j))
+        if base.k == "lol3":
+            i_ = self.to_int(self.ev(items[0]))
+            if not self.spec_mode:
+                self.oblige("bounds", f"{src_of(n)}: list index within [0, len)",
+                            z3.And(i_ >= 0, i_ < self.heap[(base.t.id, "len")]), n)
+            return Val("lol3b", (base.t, i_))
+        if base.k == "lol3b":
+            lo, i_ = base.t
+            a_ = self.to_int(self.ev(items[0]))
+            if not self.spec_mode:
+                self.oblige("bounds", f"{src_of(n)}: list index within [0, len)",
+                            z3.And(a_ >= 0, a_ < z3.Select(self.heap[(lo.id, "len2")], i_)), n)
+            return Val("lol3c", (lo, i_, a_))
+        if base.k == "lol3c":
+            lo, i_, a_ = base.t
+            p_ = self.to_int(self.ev(items[0]))
+            if not self.spec_mode:
+                self.oblige("bounds", f"{src_of(n)}: inner-list index within [0, len)",
+                            z3.And(p_ >= 0, p_ < z3.Select(z3.Select(self.heap[(lo.id, "ilen3")], i_), a_)), n)
+            return Val("int", z3.Select(z3.Select(z3.Select(self.heap[(lo.id, "elems3")], i_), a_), p_), PYINT)
+        if base.k == "ilist":
+            if len(items) != 1:
+                raise Undecidable("inner-list index")
+            lo, j = base.t
+            p_ = self.to_int(self.ev(items[0]))
+            if not self.spec_mode:
+                self.oblige("bounds", f"{src_of(n)}: inner-list index within [0, len)",
+                            z3.And(p_ >= 0, p_ < z3.Select(self.heap[(lo.id, "ilen")], j)), n)
+            return Val("int", z3.Select(z3.Select(self.heap[(lo.id, "elems")], j), p_), PYINT)
         if base.k == "arr":
             a = base.t
             # edges[e, [0, 1]] -> tuple of two elements
@@ -995,7 +1025,7 @@ class Exec:
             return Val("func", f"{v.t}.{n.attr}")
         if v.k == "arr" and n.attr == "shape":
             return Val("tuple", [self.mk_int(s) for s in v.t.shape])
-        if v.k in ("arr", "obj", "row", "lol", "ilist"):
+        if v.k in ("arr", "obj", "row", "lol", "ilist", "lol3", "lol3b", "lol3c"):
             return Val("method", (v, n.attr))
         raise Undecidable(f"attribute {src_of(n)}")
 
@@ -1164,6 +1194,14 @@ class Exec:
                 return self.const_int(len(v.t))
             if v.k == "lol":
                 return Val("int", self.heap[(v.t.id, "len")], scalar_type("Py_ssize_t"))
+            if v.k == "ilist":
+                return Val("int", z3.Select(self.heap[(v.t[0].id, "ilen")], v.t[1]), scalar_type("Py_ssize_t"))
+            if v.k == "lol3":
+                return Val("int", self.heap[(v.t.id, "len")], scalar_type("Py_ssize_t"))
+            if v.k == "lol3b":
+                return Val("int", z3.Select(self.heap[(v.t[0].id, "len2")], v.t[1]), scalar_type("Py_ssize_t"))
+            if v.k == "lol3c":
+                return Val("int", z3.Select(z3.Select(self.heap[(v.t[0].id, "ilen3")], v.t[1]), v.t[2]), scalar_type("Py_ssize_t"))
             if v.k == "obj":
                 r = self.fresh("len")
                 self.facts.append(r >= 0)
@@ -1416,6 +1454,7 @@ class Exec:
             lo = recv.t
             ln = self.heap[(lo.id, "len")]
             self.heap[(lo.id, "mult")] = z3.Store(self.heap[(lo.id, "mult")], ln, z3.K(I, z3.IntVal(0)))
+            self.heap[(lo.id, "ilen")] = z3.Store(self.heap[(lo.id, "ilen")], ln, z3.IntVal(0))
             self.heap[(lo.id, "len")] = ln + 1
             return Val("none")
         if recv.k == "ilist" and name == "append" and len(n.args) == 1:
@@ -1424,6 +1463,11 @@ class Exec:
             mt = self.heap[(lo.id, "mult")]
             row = z3.Select(mt, j)
             self.heap[(lo.id, "mult")] = z3.Store(mt, j, z3.Store(row, k, z3.Select(row, k) + 1))
+            il = self.heap[(lo.id, "ilen")]
+            el = self.heap[(lo.id, "elems")]
+            pos = z3.Select(il, j)
+            self.heap[(lo.id, "elems")] = z3.Store(el, j, z3.Store(z3.Select(el, j), pos, k))
+            self.heap[(lo.id, "ilen")] = z3.Store(il, j, pos + 1)
             return Val("none")
         if recv.k in ("lol", "ilist"):
             raise Undecidable(f"list method {name}")
@@ -1999,6 +2043,8 @@ class Exec:
             if cur.k in ("lol", "ilist"):
                 lo = cur.t if cur.k == "lol" else cur.t[0]
                 self.heap[(lo.id, "mult")] = z3.Const(f"{lo.name}__multh{next(self.n)}", MULT_SORT)
+                self.heap[(lo.id, "ilen")] = z3.Const(f"{lo.name}__ilenh{next(self.n)}", z3.ArraySort(I, I))
+                self.heap[(lo.id, "elems")] = z3.Const(f"{lo.name}__elemsh{next(self.n)}", MULT_SORT)
                 if cur.k == "lol":
                     ln = self.fresh(lo.name + "_len")
                     self.facts.append(ln >= 0)
@@ -2318,6 +2364,25 @@ class Exec:
                     z3.And(j >= 0, j < nn), rs(z3.Store(r, j, vv), nn) == rs(r, nn) - z3.Select(r, j) + vv),
                     patterns=[rs(z3.Store(r, j, vv), nn)]))
             return self.mk_int(rs(z3.Select(self.heap[arr.id], a), arr.shape[1]))
+        if fn in ("len2", "ilen3", "item3"):
+            v = self.ev(n.args[0])
+            if v.k != "lol3":
+                raise Undecidable(f"{fn}() of a non-list")
+            ix = [self.to_int(self.ev(a)) for a in n.args[1:]]
+            if fn == "len2":
+                return self.mk_int(z3.Select(self.heap[(v.t.id, "len2")], ix[0]))
+            if fn == "ilen3":
+                return self.mk_int(z3.Select(z3.Select(self.heap[(v.t.id, "ilen3")], ix[0]), ix[1]))
+            return self.mk_int(z3.Select(z3.Select(z3.Select(self.heap[(v.t.id, "elems3")], ix[0]), ix[1]), ix[2]))
+        if fn in ("ilen", "item"):
+            v = self.ev(n.args[0])
+            if v.k != "lol":
+                raise Undecidable(f"{fn}() of a non-list")
+            j = self.to_int(self.ev(n.args[1]))
+            if fn == "ilen":
+                return self.mk_int(z3.Select(self.heap[(v.t.id, "ilen")], j))
+            p_ = self.to_int(self.ev(n.args[2]))
+            return self.mk_int(z3.Select(z3.Select(self.heap[(v.t.id, "elems")], j), p_))
         if fn == "mult":
             # mult(L, j, k): number of occurrences of k in inner list j of the list of lists L
             v = self.ev(n.args[0])
@@ -2368,10 +2433,27 @@ class Exec:
                 else:
                     self.vars[pn] = Val("func", b)
                 continue
+            if pn in getattr(self.c, "lists3", ()):
+                lo = LolObj(pn)
+                A1, A2, A3 = z3.ArraySort(I, I), MULT_SORT, z3.ArraySort(I, MULT_SORT)
+                self.heap[(lo.id, "len")] = z3.Int(f"{pn}__len0")
+                self.heap[(lo.id, "len2")] = z3.Const(f"{pn}__len2", A1)
+                self.heap[(lo.id, "ilen3")] = z3.Const(f"{pn}__ilen3", A2)
+                self.heap[(lo.id, "elems3")] = z3.Const(f"{pn}__elems3", A3)
+                _a, _b = z3.Int(f"l3a!{next(self.n)}"), z3.Int(f"l3b!{next(self.n)}")
+                self.facts.append(self.heap[(lo.id, "len")] >= 0)
+                self.facts.append(z3.ForAll([_a], z3.Select(self.heap[(lo.id, "len2")], _a) >= 0))
+                self.facts.append(z3.ForAll([_a, _b], z3.Select(z3.Select(self.heap[(lo.id, "ilen3")], _a), _b) >= 0))
+                self.vars[pn] = Val("lol3", lo, pt)
+                continue
             if pn in self.c.lists:
                 lo = LolObj(pn)
                 self.heap[(lo.id, "len")] = z3.Int(f"{pn}__len0")
                 self.heap[(lo.id, "mult")] = z3.Const(f"{pn}__mult0", MULT_SORT)
+                self.heap[(lo.id, "ilen")] = z3.Const(f"{pn}__ilen0", z3.ArraySort(I, I))
+                self.heap[(lo.id, "elems")] = z3.Const(f"{pn}__elems0", MULT_SORT)
+                _q = z3.Int(f"il!{next(self.n)}")
+                self.facts.append(z3.ForAll([_q], z3.Select(self.heap[(lo.id, "ilen")], _q) >= 0))
                 self.facts.append(self.heap[(lo.id, "len")] >= 0)
                 self.vars[pn] = Val("lol", lo, pt)
                 continue
